@@ -2,6 +2,8 @@ import ChythonModel.Model.Stereo
 import ChythonModel.Model.StereoParse
 import ChythonModel.Spec.Parity
 import ChythonModel.Proofs.C12Perm
+import ChythonModel.Model.StereoFix
+import ChythonModel.Proofs.C12Fix
 import Mathlib.Tactic.Ring
 /-!
 # C12 — stereo signs are permutation-consistent
@@ -871,5 +873,111 @@ theorem tetra_table_matches_geometry (p0 p1 p2 p3 : V3) :
   refine ⟨?_, ?_, ?_, ?_, ?_, ?_, ?_, ?_, ?_, ?_, ?_, ?_, ?_, ?_, ?_, ?_, ?_, ?_, ?_, ?_, ?_, ?_, ?_, ?_⟩ <;>
     simp only [missing4, Nat.reduceSub, sel4, pyramidSign, pyramidVol, if_true, if_false, Bool.false_eq_true, one_mul, neg_one_mul, ← sgn_neg] <;>
     congr 1 <;> ring
+
+/-! ## 9. `fix_stereo`: removal / restoration of labels after a structural change
+
+`fixStereo ch atoms bonds` is the function the driver runs (`fx`); `ch labels unit` is the oracle "unit is in
+`chiral_tetrahedrons / chiral_allenes / chiral_cis_trans` when exactly `labels` are present" - every theorem holds for an
+arbitrary oracle, i.e. whatever `__chiral_centers` computes. -/
+section FixStereo
+open ChythonModel.Model.StereoFix ChythonModel.Proofs.C12Fix
+
+/-- which bond labels are queued at all: exactly those on a double bond both of whose atoms map to the same terminal pair -/
+theorem fix_stereo_bond_rule (bonds : List BondIn) (u : SUnit) (s : Bool) :
+    (u, s) ∈ collectBonds bonds ↔
+      ∃ b ∈ bonds, b.stereo = some s ∧ b.order = 2 ∧ ∃ ta, b.tn = some ta ∧ b.tm = some ta ∧ u = ⟨.cisTrans, ta.1, ta.2⟩ :=
+  collectBonds_rule bonds u s
+
+/-- which atom labels are queued: those on stereogenic tetrahedra, and on allene centres that are not tetrahedra -/
+theorem fix_stereo_atom_rule (atoms : List AtomIn) (u : SUnit) (s : Bool) :
+    ((u, s) ∈ (collectAtoms atoms).1 ↔ ∃ x ∈ atoms, x.stereo = some s ∧ x.tetra = true ∧ u = ⟨.tetra, x.n, 0⟩) ∧
+    ((u, s) ∈ (collectAtoms atoms).2 ↔
+      ∃ x ∈ atoms, x.stereo = some s ∧ x.tetra = false ∧ x.allene = true ∧ u = ⟨.allene, x.n, 0⟩) :=
+  collectAtoms_rule atoms u s
+
+/-- **labels are kept only on stereogenic units** (soundness): every label present after `fix_stereo` was a label of a
+stereogenic-unit carrier before (same sign), and its unit was reported chiral with respect to the labels restored in
+earlier rounds (`q`, an initial segment of the final labels) -/
+theorem fix_stereo_sound (ch : List Label → SUnit → Bool) (atoms : List AtomIn) (bonds : List BondIn) :
+    ∀ l ∈ (fixStereo ch atoms bonds).labels,
+      l ∈ collect atoms bonds ∧ ∃ q, q <+: (fixStereo ch atoms bonds).labels ∧ ch q l.1 = true := by
+  intro l hl
+  rcases fixLoop_sound ch _ [] (collect atoms bonds) [] l hl with h | ⟨h, q, _, hq, hc⟩
+  · simp at h
+  · exact ⟨h, q, hq, hc⟩
+
+/-- **every label that can be kept is kept** (completeness, the loop reaches a fixpoint): a queued label whose unit is
+chiral with respect to the labels finally present has been restored - in particular a double bond or centre that is
+stereogenic only thanks to labels restored in an earlier round -/
+theorem fix_stereo_complete (ch : List Label → SUnit → Bool) (atoms : List AtomIn) (bonds : List BondIn) :
+    ∀ l ∈ collect atoms bonds, ch (fixStereo ch atoms bonds).labels l.1 = true → l ∈ (fixStereo ch atoms bonds).labels :=
+  fixLoop_fixpoint ch _ [] (collect atoms bonds) [] (Nat.lt_succ_self _)
+
+/-- Python's unbounded `while` is the model's loop: more rounds than `queue length + 1` change nothing -/
+theorem fix_stereo_rounds (ch : List Label → SUnit → Bool) (atoms : List AtomIn) (bonds : List BondIn) (k : Nat) :
+    fixLoop ch ((collect atoms bonds).length + 1 + k) [] (collect atoms bonds) [] = fixStereo ch atoms bonds :=
+  fixLoop_fuel ch _ _ [] _ [] (by omega) (Nat.lt_succ_self _)
+
+/-- the stereo caches left behind describe the final labels (or are empty): no stale `chiral_*` / `_chiral_morgan` -/
+theorem fix_stereo_cache_fresh (ch : List Label → SUnit → Bool) (atoms : List AtomIn) (bonds : List BondIn) :
+    (fixStereo ch atoms bonds).cache = none ∨ (fixStereo ch atoms bonds).cache = some (fixStereo ch atoms bonds).labels :=
+  fixLoop_cache_fresh ch _ [] _ []
+
+/-- the oracle is only ever asked about label sets that are initial segments of the final labels -/
+theorem fix_stereo_asked (ch : List Label → SUnit → Bool) (atoms : List AtomIn) (bonds : List BondIn) :
+    ∀ q ∈ (fixStereo ch atoms bonds).asked, q <+: (fixStereo ch atoms bonds).labels := by
+  intro q hq
+  rcases fixLoop_asked ch _ [] (collect atoms bonds) [] q hq with h | h
+  · simp at h
+  · exact h
+
+/-- ordinary molecules (every queued unit chiral on constitution alone): every queued label is kept -/
+theorem fix_stereo_keeps_all (ch : List Label → SUnit → Bool) (atoms : List AtomIn) (bonds : List BondIn)
+    (h : ∀ l ∈ collect atoms bonds, ch [] l.1 = true) : (fixStereo ch atoms bonds).labels = collect atoms bonds := by
+  unfold fixStereo
+  rcases hc : collect atoms bonds with _ | ⟨x, xs⟩
+  · simp [fixLoop]
+  · have := fixLoop_all ch xs.length [] (x :: xs) [] (by rw [← hc]; exact h)
+    simpa using this
+
+/-- the structural change destroyed every queued unit: every label is gone -/
+theorem fix_stereo_drops_all (ch : List Label → SUnit → Bool) (atoms : List AtomIn) (bonds : List BondIn)
+    (h : ∀ l ∈ collect atoms bonds, ch [] l.1 = false) : (fixStereo ch atoms bonds).labels = [] :=
+  fixLoop_none ch _ [] _ [] h
+
+/-- the result does not depend on the order in which `atoms()` / `bonds()` are walked (renumbering), provided the
+`chiral_*` sets themselves depend only on which labels are present -/
+theorem fix_stereo_order_independent (ch : List Label → SUnit → Bool) (hch : ∀ r r' : List Label, r.Perm r' → ch r = ch r')
+    (p p' : List Label) (h : p.Perm p') :
+    (fixLoop ch (p.length + 1) [] p []).labels.Perm (fixLoop ch (p'.length + 1) [] p' []).labels := by
+  rw [h.length_eq]
+  exact fixLoop_perm ch hch _ [] [] p p' [] [] (List.Perm.refl _) h
+
+/-- a pseudo-asymmetric situation: units 1 and 2 (tetrahedra) are chiral on constitution, the double bond (3, 4) only when
+1 and 2 carry opposite labels.  Two rounds are needed and taken; with equal arm labels the bond label is dropped. -/
+def demoOracle : List Label → SUnit → Bool := fun r u =>
+  match u.kind with
+  | .tetra => true
+  | .allene => false
+  | .cisTrans => r.contains (⟨.tetra, 1, 0⟩, true) && r.contains (⟨.tetra, 2, 0⟩, false)
+
+example :
+    (fixStereo demoOracle
+      [⟨1, some true, true, false⟩, ⟨2, some false, true, false⟩, ⟨3, none, false, false⟩, ⟨5, some true, false, false⟩]
+      [⟨3, 4, 2, some true, some (3, 4), some (3, 4)⟩, ⟨1, 3, 1, some false, none, some (3, 4)⟩]).labels
+      = [(⟨.tetra, 1, 0⟩, true), (⟨.tetra, 2, 0⟩, false), (⟨.cisTrans, 3, 4⟩, true)] := by decide
+
+example :
+    (fixStereo demoOracle [⟨1, some true, true, false⟩, ⟨2, some true, true, false⟩]
+      [⟨3, 4, 2, some true, some (3, 4), some (3, 4)⟩]).labels = [(⟨.tetra, 1, 0⟩, true), (⟨.tetra, 2, 0⟩, true)] := by decide
+
+/-- hypotheses of `fix_stereo_keeps_all` / `fix_stereo_drops_all` / `fix_stereo_order_independent` are satisfiable -/
+example : ∀ l ∈ collect [⟨1, some true, true, false⟩, ⟨2, some false, true, false⟩] [], demoOracle [] l.1 = true := by decide
+example : ∀ l ∈ collect [] [⟨3, 4, 2, some true, some (3, 4), some (3, 4)⟩], demoOracle [] l.1 = false := by decide
+example : ∀ r r' : List Label, r.Perm r' → (fun (r : List Label) (u : SUnit) => r.length % 2 == 0 || u.a == 1) r
+    = (fun (r : List Label) (u : SUnit) => r.length % 2 == 0 || u.a == 1) r' := by
+  intro r r' h; simp [h.length_eq]
+
+end FixStereo
 
 end ChythonModel.Props.C12
